@@ -12,6 +12,8 @@
     sumfuns.unit <KEY>               -> unit tag of the table entry | none
     sumfuns.class <KEY>              -> <stateIsTotal><configIsTotal> as two 0/1 digits
     sumfuns.tree  G <n> {...}        -> ok | inconsistent <group>   (parent pointers vs children lists)
+    sumfuns.time <start time_t> <elapsed> <dt> <time factor> <TIME> <YEARS> <DAY> <MONTH> <YEAR>
+                                     -> ok | differs <which>...       (values after the real eval)
 
   All doubles are 16 hex digits of the IEEE bit pattern.  A = absent from data::Wells,
   S = dynamically shut, O = open.
@@ -157,9 +159,36 @@ def handleNode (args : Toks) : Option String := do
     | _ => none
   | _ => none
 
+/-- `duration_cast<nanoseconds>(duration<double>(sec))`: `(int64) (sec * 1e9)` -/
+def toNanos (sec : Float) : Int := (sec * 1e9).toInt64.toInt
+
+def handleTime (args : Toks) : Option String := do
+  match args with
+  | [start, el, dts, fs, time, years, day, month, year] =>
+    let start ← start.toInt?
+    let el ← f64 el
+    let dt ← f64 dts
+    let f ← f64 fs
+    let time ← f64 time
+    let years ← f64 years
+    let day ← f64 day
+    let month ← f64 month
+    let year ← f64 year
+    let val := el + dt
+    let (y, m, d) := simDate start (toNanos val)
+    let bad :=
+      (if fromSi f val == time then [] else ["TIME=" ++ showF (fromSi f val)]) ++
+      (if val / Float.ofNat eclYearSeconds == years then [] else ["YEARS=" ++ showF (val / Float.ofNat eclYearSeconds)]) ++
+      (if Float.ofInt d == day then [] else [s!"DAY={d}"]) ++
+      (if Float.ofInt m == month then [] else [s!"MONTH={m}"]) ++
+      (if Float.ofInt y == year then [] else [s!"YEAR={y}"])
+    if bad.isEmpty then pure "ok" else pure ("differs " ++ " ".intercalate bad)
+  | _ => none
+
 def handle (op : String) (args : List String) : String :=
   match op, args with
   | "sumfuns.node", _ => (handleNode args).getD "bad-op"
+  | "sumfuns.time", _ => (handleTime args).getD "bad-op"
   | "sumfuns.unit", [key] =>
     match lookupFun key with
     | some e => (unitOf e).getD "none"
